@@ -11,6 +11,8 @@ import WpModel.Model.Dates
 import WpModel.Model.Metadata
 import WpModel.Model.C18PdfString
 import WpModel.Model.C18Attach
+import WpModel.Model.C18HitArea
+import WpModel.Model.C18LinkAttr
 
 namespace Wp.Drive.Outline
 open Wp Wp.Outline Wp.Anchors
@@ -19,6 +21,24 @@ def unesc (s : String) : String := if s == "%e" then "" else s
 def esc (s : String) : String := if s == "" then "%e" else s
 
 def str? (x : Sx) : Option String := x.atom?.map unesc
+
+def hexChar? (c : Char) : Option Nat := Wp.PdfStr.hexVal c.toNat
+
+/-- The code points of an opaque string from its wire atom (inverse of the harness's `esc`: `%XX`,
+`%uXXXX`, everything else verbatim; the empty string has already been unescaped by `str?`). -/
+def atomCps : List Char → List Nat
+  | [] => []
+  | '%' :: 'u' :: a :: b :: c :: d :: rest =>
+    match hexChar? a, hexChar? b, hexChar? c, hexChar? d with
+    | some a, some b, some c, some d => (((a * 16 + b) * 16 + c) * 16 + d) :: atomCps rest
+    | _, _, _, _ => 37 :: atomCps ('u' :: a :: b :: c :: d :: rest)
+  | '%' :: a :: b :: rest =>
+    match hexChar? a, hexChar? b with
+    | some a, some b => (a * 16 + b) :: atomCps rest
+    | _, _ => 37 :: atomCps (a :: b :: rest)
+  | ch :: rest => ch.toNat :: atomCps rest
+
+def cpsOfAtom (s : String) : List Nat := atomCps s.toList
 
 /-- Errors are printed without the site: the harness maps a Python exception to `err:<Class>` and,
 for AssertionError, appends the site it reads from the failing source line. -/
@@ -178,6 +198,22 @@ partial def gbox? : Sx → Option GBox
       (← str? label) (← optInt? level) (← str? state) (← optLink? link) (← att.bool?) (← optStr? anchor) ks)
   | _ => none
 
+def geom? : Sx → Option BoxGeom
+  | .list [px, py, w, h, mt, mr, mb, ml, pt, pr, pb, pl, bt, br, bb, bl] => do
+    pure { positionX := ← px.rat?, positionY := ← py.rat?, width := ← w.rat?, height := ← h.rat?
+           marginTop := ← mt.rat?, marginRight := ← mr.rat?, marginBottom := ← mb.rat?, marginLeft := ← ml.rat?
+           paddingTop := ← pt.rat?, paddingRight := ← pr.rat?, paddingBottom := ← pb.rat?, paddingLeft := ← pl.rat?
+           borderTop := ← bt.rat?, borderRight := ← br.rat?, borderBottom := ← bb.rat?, borderLeft := ← bl.rat? }
+  | _ => none
+
+/-- A laid-out box with its used values (`gatherraw`). -/
+partial def rbox? : Sx → Option RBox
+  | .list [kind, .list ops, ox, oy, geom, label, level, state, link, att, anchor, .list kids] => do
+    let ks ← allSome rbox? kids
+    pure (.mk (← kind? kind) (← allSome top? ops) (← dim? ox) (← dim? oy) (← geom? geom)
+      (← str? label) (← optInt? level) (← str? state) (← optLink? link) (← att.bool?) (← optStr? anchor) ks)
+  | _ => none
+
 def showAcc (acc : Acc) : String :=
   let anchors := acc.anchors.map fun a => "(" ++ esc a.name ++ " " ++ showRect a.rect ++ ")"
   let links := acc.links.map fun l => "(" ++ esc l.type ++ " " ++ esc l.target ++ " " ++ showRect l.rect ++ ")"
@@ -190,6 +226,12 @@ def showAcc (acc : Acc) : String :=
 
 def chars? (x : Sx) : Option (List Char) :=
   x.list?.bind (allSome (fun a => a.nat?.map Char.ofNat))
+
+def optChars? : Sx → Option (Option (List Char))
+  | .atom "none" => some none
+  | x => (chars? x).map some
+
+def showChars (s : List Char) : String := "(" ++ " ".intercalate (s.map fun c => toString c.toNat) ++ ")"
 
 def handle (cmd : String) (args : List Sx) : Option String :=
   match cmd, args with
@@ -230,6 +272,16 @@ def handle (cmd : String) (args : List Sx) : Option String :=
     let p := (← matrix? m).transformPoint (← x.rat?) (← y.rat?)
     pure (showRat p.1 ++ " " ++ showRat p.2)
   | "gather", [box] => do pure (showAcc (gatherPage (← gbox? box)))
+  | "gatherraw", [box] => do pure (showAcc (gatherPageRaw (← rbox? box)))
+  | "unquote", [s] => do pure (showChars (Wp.LinkAttr.unquote (← chars? s)))
+  | "linkattr", [attr, base] => do
+    match Wp.LinkAttr.getLinkAttribute (← optChars? attr) (← optChars? base) with
+    | none => pure "none"
+    | some (.internal, t) => pure ("(internal " ++ showChars t ++ ")")
+    | some (.external, t) => pure ("(external " ++ showChars t ++ ")")
+  | "hitarea", [kind, geom] => do
+    let h := hitArea (← kind? kind) (← geom? geom)
+    pure (" ".intercalate ([h.1, h.2.1, h.2.2.1, h.2.2.2].map showRat))
   | "annot", [scale, height, x1, y1, x2, y2] => do
     let m := pageMatrix (← scale.rat?) (← height.rat?)
     pure (showRect (annotRect m ⟨← x1.rat?, ← y1.rat?, ← x2.rat?, ← y2.rat?⟩))
@@ -354,12 +406,6 @@ def headEl? : Sx → Option Wp.Metadata.HeadEl
   | .list [.atom "meta", n, c] => do pure (.metaEl (← chars? n) (← chars? c))
   | _ => none
 
-def optChars? : Sx → Option (Option (List Char))
-  | .atom "none" => some none
-  | x => (chars? x).map some
-
-def showChars (s : List Char) : String := "(" ++ " ".intercalate (s.map fun c => toString c.toNat) ++ ")"
-
 def handleDoc (cmd : String) (args : List Sx) : Option String :=
   match cmd, args with
   | "docoutl", [.list hs] => do
@@ -392,6 +438,15 @@ def handleDoc (cmd : String) (args : List Sx) : Option String :=
     let names ← allSome str? names
     pure ("(" ++ " ".intercalate links ++ ") (" ++
       " ".intercalate ((Wp.Metadata.firstOccurrences names []).map esc) ++ ")")
+  | "docels", [base, .list els] => do
+    let els ← allSome (fun x => match x with
+      | .list [k, .atom tag, id, name, href, rel] => do
+        pure (← k.nat?, ({ tag := tag, id := ← optChars? id, name := ← optChars? name, href := ← optChars? href,
+                           rel := ← optChars? rel } : Wp.LinkAttr.El))
+      | _ => none) els
+    let r := Wp.LinkAttr.documentLinks els (← optChars? base)
+    pure ("(" ++ " ".intercalate (r.1.map fun (k, ty, t) => "(" ++ toString k ++ " " ++ ty ++ " " ++ showChars t ++ ")") ++
+      ") (" ++ " ".intercalate (r.2.map showChars) ++ ")")
   | "pdfenc", [.list cps] => do
     match Wp.PdfStr.encode (← allSome Sx.nat? cps) with
     | .error e => pure (renderErr e)
@@ -496,7 +551,7 @@ def handleAttach (cmd : String) (args : List Sx) : Option String :=
     let r := runAttPages guesses (fetchOf table) ⟨[], [], 0⟩ (← allSome attPage? pages)
     let specs := r.1.files.map (·.spec)
     let showAnnot (a : FileAnnot) : String := "(" ++ indexOf? specs a.fs ++ " " ++ showRect a.rect ++ ")"
-    let e := embeddedFiles guesses r.1.next (metaAttachments (fetchOf table) headLinks ++ (← allSome att? docAtts))
+    let e := embeddedFiles cpsOfAtom guesses r.1.next (metaAttachments (fetchOf table) headLinks ++ (← allSome att? docAtts))
     let names := match e.2.1 with
       | none => "none"
       | some d => "(" ++ " ".intercalate (d.names.map fun n => "(" ++ esc n.1 ++ " " ++ indexOf? (e.1.map (·.spec)) n.2 ++ ")") ++ ")"
